@@ -3,6 +3,7 @@
 R20-a order/identity of the three file-system operations on every path, `?` between them
 R20-b inequality guard dominates all of them
 R20-c only `Files ∧ make_backup` selects the backup emitter; --backup sets make_backup
+R20-d the three names are pairwise distinct on every path that touches the file system
 """
 import effects
 from absint import explore, vkey, variant_name, TooManyPaths
@@ -40,6 +41,9 @@ def run(ctx):
                         "its last operation; no other fs-mutating call")
     B = r.rule("R20-b", "original_text != formatted_text decided true on every path with a file-system operation; "
                         "the equal edge performs none")
+    r.rule("R20-d", "every path that performs a file-system operation has decided that F.with_extension(tmp) ≠ F and "
+                    "F.with_extension(bk) ≠ F (a file named *.bk or *.tmp is its own backup / temporary file: the protocol "
+                    "would destroy the original)")
     C = r.rule("R20-c", "create_emitter maps exactly Files∧make_backup to FilesWithBackupEmitter; "
                         "GetOptsOptions::apply_to sets make_backup from the --backup flag")
     fn = p.fns.get(EMIT)
@@ -75,8 +79,27 @@ def run(ctx):
         elif seq:
             r.oblige("R20-b", "guard true on path %s" % key, True)
         r.instance("R20-b", key, "ok" if (not seq or g) else "violation", where)
+        # R20-d: the three names are pairwise distinct wherever the protocol starts
+        if seq:
+            distinct = {"tmp": None, "bk": None}
+            for k, v in path.decisions:
+                if not isinstance(v, bool) or "with_extension(" not in k or not ("::eq(" in k or "::ne(" in k):
+                    continue
+                same = v if "::eq(" in k else (not v)
+                for ext in ("tmp", "bk"):
+                    if ',"%s")' % ext in k and k.count("ensure_real_path(") >= 2:
+                        distinct[ext] = not same
+            okd = distinct["tmp"] is True and distinct["bk"] is True
+            r.oblige("R20-d", "names distinct on %s" % key, okd)
+            r.instance("R20-d", key, "ok" if okd else "violation", where, str(distinct))
+            if not okd:
+                r.violation("R20-d", "backup-emitter: protocol runs without knowing the three names differ",
+                            "write / rename are performed on a path where `tmp_name != filename` and `bk_name != filename` were "
+                            "not both established (%s): for `x.bk` the first rename is a no-op and the second overwrites the only "
+                            "copy of the original; for `x.tmp` the write itself does" % distinct,
+                            ["%s:%d" % (fn.file, e.line) for e in seq][:1], {"path": path.blocks})
         if not seq:
-            if g is True:
+            if g is True and path.ret is not None and vkey(path.ret).startswith("Ok("):
                 r.violation("R20-a", "backup-emitter: changed text not written",
                             "text differs but a success path performs no write", [where], {"path": path.blocks})
             continue
